@@ -32,7 +32,7 @@ def gen_cases(tier, seed):
     for name, e in POOL.items():
         for i in range(max(2, reps // e.slow)):
             s = stable_hash(seed, "C06", name, i)
-            cases.append({"family": "pool", "entry": name, "seed": s, "wrap": WRAPS[i % len(WRAPS)], "prefit": False, "weights": False,
+            cases.append({"family": "pool", "entry": name, "seed": s, "wrap": WRAPS[(i + s) % len(WRAPS)] if i else "none", "prefit": False, "weights": False,
                           "nq": 1, "nmax": 12 if tier == "quick" else 20, "rs": ["int", "instance"][(s >> 2) % 2],
                           "data": ["grid", "dups", "const", None][i % 4]})
     for i in range(reps * 3):
